@@ -57,6 +57,7 @@ type Opts struct {
 	Out    string
 	Replay string // a cases file to re-run instead of generating
 	Extra  string
+	Corpus string // a cases file of past failures (minimised witnesses of repaired defects, seeded changes): run first, then generate
 }
 
 func ParseFlags() *Opts {
@@ -67,6 +68,7 @@ func ParseFlags() *Opts {
 	flag.StringVar(&o.Out, "out", "", "output directory")
 	flag.StringVar(&o.Replay, "replay", "", "replay this cases file instead of generating")
 	flag.StringVar(&o.Extra, "extra", "", "property specific option")
+	flag.StringVar(&o.Corpus, "corpus", "", "cases file of past failures, run before the generated cases")
 	flag.Parse()
 	o.Seed = uint64(seed)
 	if o.Out == "" {
@@ -80,6 +82,52 @@ func ParseFlags() *Opts {
 }
 
 func (o *Opts) Thorough() bool { return o.Tier == "thorough" }
+
+// CorpusLines returns the case lines of the -corpus file (nil when there is none).
+func (o *Opts) CorpusLines() []string {
+	if o.Corpus == "" {
+		return nil
+	}
+	if _, err := os.Stat(o.Corpus); err != nil {
+		return nil
+	}
+	save := o.Replay
+	o.Replay = o.Corpus
+	defer func() { o.Replay = save }()
+	return o.ReplayLines()
+}
+
+// Scen names one generated scenario of a system-level harness: "SCEN <seed> <idx> <tier>".
+type Scen struct {
+	Seed uint64
+	Idx  int
+	Tier string
+}
+
+func (s Scen) String() string { return fmt.Sprintf("SCEN %d %d %s", s.Seed, s.Idx, s.Tier) }
+
+// Scens: the corpus scenarios (kind = first word of their lines, "SCEN" by default) followed by n generated ones.
+func (o *Opts) Scens(kind string, n int) []Scen {
+	var out []Scen
+	seen := map[string]bool{}
+	for _, l := range o.CorpusLines() {
+		f := strings.Fields(l)
+		if len(f) >= 4 && f[0] == kind {
+			sc := Scen{Atou(f[1]), Atoi(f[2]), f[3]}
+			if !seen[sc.String()] {
+				seen[sc.String()] = true
+				out = append(out, sc)
+			}
+		}
+	}
+	for i := 0; i < n; i++ {
+		sc := Scen{o.Seed, i, o.Tier}
+		if !seen[sc.String()] {
+			out = append(out, sc)
+		}
+	}
+	return out
+}
 
 // ReplayLines returns the case lines of the -replay file (nil when not replaying).
 func (o *Opts) ReplayLines() []string {
